@@ -74,7 +74,7 @@ class Ctx:
         self.max_depth = 0
         self.case = None
 
-    def fail(self, msg, expected=None, observed=None, case=None, repro=None):
+    def fail(self, msg, expected=None, observed=None, case=None, repro=None, hang=False):
         if len(self.fails) >= MAX_FAILS_PER_SHARD:
             self.cats['fails_dropped_after_cap'] += 1
             return
@@ -85,6 +85,7 @@ class Ctx:
             'expected': _j(expected),
             'observed': _j(observed),
             'repro': repro,
+            'hang': hang,
         })
 
     def outcome(self, obj):
@@ -111,26 +112,54 @@ def _load(prop):
 _SAMPLE_SLOTS = 3
 
 
+class Hang(BaseException):
+    pass
+
+
+def _on_alarm(signum, frame):
+    raise Hang()
+
+
+HANG_SECONDS = 10
+
+
+_PROGRESS = None      # (RawArray, slot) set in pool workers
+
+
 def run_shard(args):
-    prop, shard = args
+    import signal
+    prop, shard = args[0], args[1]
+    skip = set(args[2]) if len(args) > 2 else ()
     mod = _load(prop)
     ctx = Ctx(prop, shard.get('sub'))
     t0 = time.time()
     first = last = None
     mid = None
     n = 0
+    signal.signal(signal.SIGALRM, _on_alarm)
     try:
         for case in mod.cases(shard):
             ctx.case = case
             ctx.evals += 1
             n += 1
+            if _PROGRESS is not None:
+                _PROGRESS[0][_PROGRESS[1]] = n
+            if skip and (n - 1) in skip:
+                continue
             if first is None:
                 first = case
             elif n & (n - 1) == 0:     # powers of two: a cheap "somewhere in the middle"
                 mid = case
             last = case
-            mod.check(case, ctx)
+            signal.setitimer(signal.ITIMER_REAL, HANG_SECONDS)
+            try:
+                mod.check(case, ctx)
+            except Hang:
+                ctx.fail(f'hang: the case did not finish within {HANG_SECONDS} s (termination)', hang=True)
+            finally:
+                signal.setitimer(signal.ITIMER_REAL, 0)
     except Exception:
+        signal.setitimer(signal.ITIMER_REAL, 0)
         return {'shard': shard, 'error': traceback.format_exc(), 'case': _j(ctx.case)}
     samples = [c for c in (first, mid, last) if c is not None]
     return {
@@ -144,6 +173,119 @@ def run_shard(args):
 
 def _init_worker():
     setup_path()
+
+
+KILL_SECONDS = 25
+MAX_HANGS = 2
+
+
+def _worker_main(conn, progress, slot):
+    global _PROGRESS
+    _PROGRESS = (progress, slot)
+    setup_path()
+    while True:
+        try:
+            msg = conn.recv()
+        except EOFError:
+            return
+        if msg is None:
+            return
+        idx, args = msg
+        progress[slot] = 0
+        conn.send((idx, run_shard(args)))
+
+
+def run_pool(prop, mod, shards, jobs):
+    """Own process pool: long-lived fork workers, results by shard index, and a
+    watchdog that survives hangs inside C code (e.g. a backtracking regex): a
+    worker whose per-case progress counter has not moved for KILL_SECONDS is
+    killed, the case it was on is recovered by re-enumerating the shard and
+    reported as a termination failure, and the shard is re-run without it."""
+    import multiprocessing.connection as mpc
+    ctxmp = multiprocessing.get_context('fork')
+    progress = ctxmp.RawArray('q', jobs)
+    workers = [None] * jobs
+
+    def spawn(slot):
+        parent, child = ctxmp.Pipe()
+        p = ctxmp.Process(target=_worker_main, args=(child, progress, slot), daemon=True)
+        p.start()
+        child.close()
+        workers[slot] = {'proc': p, 'conn': parent, 'busy': None, 'last': 0, 'since': time.time()}
+
+    for i in range(jobs):
+        spawn(i)
+    results = [None] * len(shards)
+    queue = [(i, (prop, s)) for i, s in enumerate(shards)]
+    queue.reverse()
+    pending = len(shards)
+    hang_fails = []
+    hangs = 0
+    aborted = False
+    while pending and not aborted:
+        for slot, w in enumerate(workers):
+            if w['busy'] is None and queue:
+                idx, args = queue.pop()
+                w['busy'] = (idx, args)
+                w['last'] = 0
+                w['since'] = time.time()
+                progress[slot] = 0
+                w['conn'].send((idx, args))
+        ready = mpc.wait([w['conn'] for w in workers if w['busy'] is not None], timeout=1.0)
+        for slot, w in enumerate(workers):
+            if w['busy'] is None:
+                continue
+            if w['conn'] in ready:
+                try:
+                    idx, res = w['conn'].recv()
+                except EOFError:
+                    idx, res = w['busy'][0], {'shard': w['busy'][1][1], 'error': 'worker process died', 'case': None}
+                    spawn(slot)
+                    w = workers[slot]
+                results[idx] = res
+                w['busy'] = None
+                pending -= 1
+                continue
+            cur = progress[slot]
+            now = time.time()
+            if cur != w['last']:
+                w['last'] = cur
+                w['since'] = now
+            elif now - w['since'] > KILL_SECONDS:
+                idx, args = w['busy']
+                w['proc'].kill()
+                w['proc'].join()
+                n = cur - 1
+                case = None
+                for k, c in enumerate(mod.cases(args[1])):
+                    if k == n:
+                        case = c
+                        break
+                hang_fails.append({'sub': args[1].get('sub'), 'case': case, 'hang': True,
+                                   'msg': f'hang: the case did not finish within {KILL_SECONDS} s and could not be interrupted (termination)',
+                                   'expected': 'a result or a documented error', 'observed': 'no return', 'repro': None})
+                hangs += 1
+                spawn(slot)
+                if hangs >= MAX_HANGS:
+                    aborted = True
+                    break
+                skip = list(args[2]) if len(args) > 2 else []
+                queue.append((idx, (args[0], args[1], skip + [n])))
+    for w in workers:
+        try:
+            if aborted:
+                w['proc'].kill()
+            else:
+                w['conn'].send(None)
+        except Exception:
+            pass
+    for w in workers:
+        w['proc'].join(timeout=5)
+        if w['proc'].is_alive():
+            w['proc'].kill()
+    if aborted:
+        hang_fails[0]['msg'] += f' | exploration aborted after {hangs} hangs'
+    return results, hang_fails
 
 
 def load_known():
@@ -229,16 +371,14 @@ def main(argv=None):
         shards = [s for s in shards if s.get('sub') == args.only]
     jobs = max(1, min(args.jobs, len(shards)))
     results = []
-    if jobs == 1:
+    hang_fails = []
+    if jobs == 1 and not os.environ.get('VERIF_FORCE_POOL'):
         for s in shards:
             results.append(run_shard((prop, s)))
     else:
-        ctxmp = multiprocessing.get_context('fork')
-        with ctxmp.Pool(jobs, initializer=_init_worker) as pool:
-            for r in pool.imap(run_shard, [(prop, s) for s in shards], chunksize=1):
-                results.append(r)
+        results, hang_fails = run_pool(prop, mod, shards, jobs)
 
-    errors = [r for r in results if 'error' in r]
+    errors = [r for r in results if r is not None and 'error' in r]
     if errors:
         for r in errors[:3]:
             print(f'HARNESS-ERROR property={prop} shard={canon(r["shard"])} case={canon(r["case"])}\n{r["error"]}', file=sys.stderr)
@@ -250,7 +390,10 @@ def main(argv=None):
     outcomes = set()
     fails, samples, caps = [], [], []
     max_depth = 0
+    fails.extend(hang_fails)
     for r in results:
+        if r is None:
+            continue
         for k in ('evals', 'transitions', 'validated', 'nontrivial'):
             tot[k] += r[k]
         cats.update(r['cats'])
@@ -292,7 +435,7 @@ def main(argv=None):
             seen_sig[sig] = 1
             if len(violations) >= MAX_WRITE:
                 continue
-        ok, why = reproduce(prop, f)
+        ok, why = (True, '') if f.get('hang') else reproduce(prop, f)
         if not ok:
             harness_errors.append((f, why))
             continue
